@@ -36,7 +36,7 @@ func NewTerms(p *Prog) *Terms {
 	return &Terms{p: p, memo: map[ssa.Value]string{}, busy: map[ssa.Value]bool{}, InlineDepth: 3}
 }
 
-var reSuffix = regexp.MustCompile(`#[A-Za-z0-9_$.]+`)
+var reSuffix = regexp.MustCompile(`#[A-Za-z0-9_$~]+`)
 
 // strip removes instruction-identity suffixes so that terms can be compared by shape.
 func strip(t string) string { return reSuffix.ReplaceAllString(t, "") }
@@ -152,7 +152,7 @@ func (t *Terms) T(v ssa.Value) string {
 
 func (t *Terms) id(v ssa.Value) string {
 	if f := v.Parent(); f != nil {
-		return "#" + shortName(f) + "." + v.Name()
+		return "#" + strings.ReplaceAll(shortName(f), ".", "~") + "~" + v.Name()
 	}
 	return "#" + v.Name()
 }
